@@ -301,6 +301,16 @@ def oracle_xnlri(c, obs):
     why = xnlri_unfaithful(c, obs[5])
     if why:
         return 'not stored faithfully: ' + why
+    if c['x'][0] == 17 and isinstance(obs[2], list) and obs[2] and obs[2][0] != -1:
+        x = expand(c['x'])
+        w = 32 if c['fam'] == c17enum.MUP4 else 128
+        want = 4 + 8 + 1 + w // 8 + (x[2] - w + 7) // 8
+        if len(obs[2]) != want:
+            return 'an accepted MUP Type 2 route with endpoint length %d is encoded in %d octets, not %d' % (x[2], len(obs[2]), want)
+    if c['x'][0] == 16 and isinstance(obs[5], list) and obs[5] and obs[5][0] == 16:
+        x = expand(c['x'])
+        if (x[7] == 0 or not x[8]) and (obs[5][7] != 0 or obs[5][8]):
+            return 'not stored faithfully: a MUP Type 1 route given without a source address is listed with one'
     if c['x'][0] == 18:
         why = lsn_must_refuse(expand(c['x']))
         if why:
